@@ -156,7 +156,9 @@ def bfgs_history(rnd, M, tier):
                           "(momenta are not Gibbs-distributed for the kinetic energy in use)"))
         if ops[-1] == "Reject" and not same:
             probs.append(("bfgs-reject-not-restored", f"after {ops}: rejection did not restore the state of the last acceptance (metric, reference position and gradient)"))
-        sym = numpy.allclose(mass.Minv, mass.Minv.T, rtol=1e-10, atol=1e-12)
+        # symmetric up to rounding, measured against the size of the matrix (after an ill-conditioned update its entries span sixty
+        # binary orders of magnitude; an element-wise comparison would ask small entries to be exact)
+        sym = float(numpy.linalg.norm(mass.Minv - mass.Minv.T)) <= 1e-10 * float(numpy.linalg.norm(mass.Minv)) + 1e-300
         try:
             numpy.linalg.cholesky(mass.Minv)
             pd = True
